@@ -524,13 +524,16 @@ class invariant:  # pylint: disable=invalid-name
                 "but got: {}".format(cls, type(invariants_on_setattr))
             )
 
-        invariants.append(self._invariant)
+        # The very same invariant might already be there (*e.g.*, the class inherited it from a base which was decorated
+        # with this decorator object as well): an invariant is a single contract and is checked once.
+        if not any(existing is self._invariant for existing in invariants):
+            invariants.append(self._invariant)
 
-        if InvariantCheckEvent.CALL in self._invariant.check_on:
-            invariants_on_call.append(self._invariant)
+            if InvariantCheckEvent.CALL in self._invariant.check_on:
+                invariants_on_call.append(self._invariant)
 
-        if InvariantCheckEvent.SETATTR in self._invariant.check_on:
-            invariants_on_setattr.append(self._invariant)
+            if InvariantCheckEvent.SETATTR in self._invariant.check_on:
+                invariants_on_setattr.append(self._invariant)
 
         icontract._checkers.add_invariant_checks(cls=cls)
 
